@@ -68,24 +68,29 @@ type c05Tick struct {
 }
 
 type c05Case struct {
-	Failover   bool      `json:"failover"`
-	Resetup    bool      `json:"resetup_crashed_hosts"`
-	Delay      int       `json:"failover_delay_s"`
-	Maint      int       `json:"maintenance"`
-	Pending    int       `json:"pending_request"`
-	MasterUp   bool      `json:"manager_reaches_master"`
-	MasterHung bool      `json:"master_answers_nobody_but_replicas_stay_connected,omitempty"`
-	Reps       [2]int    `json:"replicas"`
-	List       int       `json:"list_size"` // 0 absent, 1 [h1], 2 [h1,h2], 3 [h1,h2,h3]
-	Last       int       `json:"last_switch"`
-	Async      bool      `json:"async_config"`
-	Ticks      []c05Tick `json:"ticks"`
+	Failover   bool `json:"failover"`
+	Resetup    bool `json:"resetup_crashed_hosts"`
+	Delay      int  `json:"failover_delay_s"`
+	Maint      int  `json:"maintenance"`
+	Pending    int  `json:"pending_request"`
+	MasterUp   bool `json:"manager_reaches_master"`
+	MasterHung bool `json:"master_answers_nobody_but_replicas_stay_connected,omitempty"`
+	// OperatorFilesAt >= 0: another initiator files a planned request (create-if-absent) just before
+	// call number OperatorFilesAt of the first iteration
+	OperatorFilesAt *int      `json:"operator_files_before_call,omitempty"`
+	Reps            [2]int    `json:"replicas"`
+	List            int       `json:"list_size"` // 0 absent, 1 [h1], 2 [h1,h2], 3 [h1,h2,h3]
+	Last            int       `json:"last_switch"`
+	Async           bool      `json:"async_config"`
+	Ticks           []c05Tick `json:"ticks"`
 }
 
 func (c c05Case) String() string {
 	return fmt.Sprintf("failover=%v resetup=%v delay=%ds maint=%d pending=%d masterUp=%v masterHung=%v replicas=%v list=%d last=%d async=%v ticks=%+v",
 		c.Failover, c.Resetup, c.Delay, c.Maint, c.Pending, c.MasterUp, c.MasterHung, c.Reps, c.List, c.Last, c.Async, c.Ticks)
 }
+
+var c05FirstBase, c05FirstCalls int
 
 func c05Run(r *vt.Run, c c05Case) {
 	r.Eval()
@@ -165,11 +170,23 @@ func c05Run(r *vt.Run, c c05Case) {
 		filed := 0
 		muts := 0
 		var mutOps []string
+		prevSwitch, _ := w.ZK.Get(vns + "/switch") // content of the request key before the call being applied
+		ident := func(raw string) string {
+			var s Switchover
+			if raw == "" || json.Unmarshal([]byte(raw), &s) != nil {
+				return ""
+			}
+			return fmt.Sprintf("%s/%s@%d %s>%s", s.Cause, s.InitiatedBy, s.InitiatedAt.UnixNano(), s.From, s.To)
+		}
 		w.OnApply = append(w.OnApply, func(ap *sim.Applied) {
-			if ap.Call.Kind == "zk" && ap.Call.Target == vns+"/switch" && ap.Call.Op == "create" && ap.Effect {
+			defer func() { prevSwitch, _ = w.ZK.Get(vns + "/switch") }()
+			if ap.Call.Kind == "zk" && ap.Call.Target == vns+"/switch" && (ap.Call.Op == "create" || ap.Call.Op == "set") && ap.Effect {
 				var s Switchover
-				if json.Unmarshal(ap.Call.ZKReq.Data, &s) == nil && s.Cause == CauseAuto {
-					filed++
+				if json.Unmarshal(ap.Call.ZKReq.Data, &s) == nil && s.Cause == CauseAuto && ident(string(ap.Call.ZKReq.Data)) != ident(prevSwitch) {
+					filed++ // a NEW automatic request appears in the key (however it is written)
+					if prevSwitch != "" {
+						r.Violate("C05/2-no-other-request", fmt.Sprintf("automatic failover written over the pending request %s; case %s", prevSwitch, c), c)
+					}
 				}
 			}
 			if ap.Call.Kind == "sql" && ap.Call.Mut {
@@ -217,7 +234,23 @@ func c05Run(r *vt.Run, c c05Case) {
 			putHealth(tk.Health)
 			filed, muts, mutOps = 0, 0, nil
 			start := w.Now()
+			if ti == 0 {
+				c05FirstBase = len(w.Trace)
+				if c.OperatorFilesAt != nil {
+					w.Plan[len(w.Trace)+*c.OperatorFilesAt] = sim.Deviation{Kind: sim.DevEnv}
+					w.EnvHook = func(int) {
+						if !w.ZK.Exists(vns + "/switch") {
+							w.ZK.Put(vns+"/switch", jsonStr(Switchover{To: "h3", Cause: CauseManual, InitiatedBy: "operator", InitiatedAt: time.Now(), MasterTransition: SwitchoverTransition}))
+							prevSwitch, _ = w.ZK.Get(vns + "/switch")
+							r.Count("requests_filed_inside_the_iteration")
+						}
+					}
+				}
+			}
 			h.Tick(a)
+			if ti == 0 {
+				c05FirstCalls = len(w.Trace) - c05FirstBase
+			}
 			end := w.Now()
 			where := fmt.Sprintf("iteration %d of %s", ti, c)
 			if len(w.Panics) > 0 || len(w.Unknown) > 0 {
@@ -371,6 +404,25 @@ func checkC05(r *vt.Run) {
 					}
 				}
 			}
+		}
+	}
+	// b = 1 environment deviation: another initiator files a request before every call of an iteration
+	// that files an automatic failover
+	for _, base := range []c05Case{
+		{Failover: true, MasterUp: false, Reps: [2]int{rRunning, rRunning}, List: 3, Ticks: []c05Tick{{0, hPingFailed, false}}},
+		{Failover: true, MasterUp: false, Reps: [2]int{rRunning, rStopped}, List: 3, Ticks: []c05Tick{{0, hAbsent, false}}},
+		{Failover: true, MasterUp: true, Reps: [2]int{rRunning, rRunning}, List: 3, Ticks: []c05Tick{{0, hFSRO, false}}},
+		{Failover: true, Resetup: true, MasterUp: true, Reps: [2]int{rRunning, rRunning}, List: 3, Ticks: []c05Tick{{0, hCrash, false}}},
+	} {
+		c05FirstCalls = 0
+		c05Run(r, base)
+		r.R.Evaluations--
+		n := c05FirstCalls
+		for at := 0; at < n; at++ {
+			at := at
+			cc := base
+			cc.OperatorFilesAt = &at
+			run(cc)
 		}
 	}
 	// async configuration: quorum rule differs
